@@ -7,6 +7,9 @@ here), all cache geometries and all positions:
   B2  _data[r][c] (read or fill): 0 <= r < _ysize   and  0 <= c < _xsize
   B3  readarray(_file, &_data[r][c], n) after filepos(x, y):  c + n <= _xsize  and  x + n <= _width
       (a block read never runs past the end of a raster row or of a cache row)
+  B4  the cell (ix, iy) that height() remembers in _ix/_iy is a cell of the raster: 0 <= ix < _width,
+      0 <= iy <= _height - 2 (there is one row of cells fewer than rows of pixels; the south pole belongs to
+      the last row of cells)
 A longitude that is not wrapped, a wrap applied to the wrong variable, an off-by-one in a wrap test or a
 cache row filled from the wrong column all break one of these.
 """
@@ -108,6 +111,17 @@ class GeoidAnalyzer(Analyzer):
                 st.sys.add_le(p2, p)
         st.products = st.products + [(coef.name, x, p)]
         return p
+
+    def assign(self, f, lhs, v, st):
+        n = f.nodes[f.strip(lhs)]
+        if n['k'] == 'MemberExpr' and n.get('thisbase') and n.get('m') in ('_ix', '_iy') and self.depth == 0 and \
+                not f.is_ctor and isinstance(v, Lin):
+            # B4: the cell remembered as cache key is a cell of the raster
+            if n['m'] == '_ix':
+                self.check(f, f.strip(lhs), 'B4 cached cell column', v, Lin.const(0), self.member('_width', st) - Lin.const(1), st)
+            else:
+                self.check(f, f.strip(lhs), 'B4 cached cell row', v, Lin.const(0), self.member('_height', st) - Lin.const(2), st)
+        Analyzer.assign(self, f, lhs, v, st)
 
     def copy_extra(self, a, b):
         b.ranges = dict(a.ranges)
